@@ -394,3 +394,50 @@ Proof.
   unfold int_rule_ok, norm_int. destruct r as [mn mx xmn xmx]. cbn [ir_min ir_max ir_xmin ir_xmax].
   destruct mn, mx, xmn as [[|]|], xmx as [[|]|]; reflexivity.
 Qed.
+
+(* ---------------------------------------------------------------- enums as roots *)
+From J5V.model Require Import RulesEnum.
+
+Lemma strip_prefix_app p x : strip_prefix p (p ++ x) = x.
+Proof. induction p as [|c r IH]; cbn; [destruct x; reflexivity|]. rewrite N.eqb_refl. exact IH. Qed.
+
+Lemma has_suffix_app p suf : has_suffix suf (p ++ suf) = true.
+Proof. unfold has_suffix. rewrite rev_app_distr. apply has_prefix_app. Qed.
+
+Lemma trim_suffix_app p suf : trim_suffix suf (p ++ suf) = p.
+Proof.
+  unfold trim_suffix. rewrite has_suffix_app. rewrite rev_app_distr, strip_prefix_app. apply rev_involutive.
+Qed.
+
+(* an explicit first option that stands for value 0 is spelled UNSPECIFIED or
+   <prefix>UNSPECIFIED (and the prefix is not itself a prefix of "UNSPECIFIED") *)
+Definition unspec_ok (e : enum_decl) : bool :=
+  match ed_options e with
+  | (n, _) :: _ =>
+      if has_suffix unspecified n
+      then str_eqb n (ed_prefix e ++ unspecified)
+           || (str_eqb n unspecified && negb (has_prefix (ed_prefix e) unspecified))
+      else true
+  | [] => true
+  end.
+
+Lemma write_enum_first e :
+  unspec_ok e = true ->
+  exists d rest, eo_values (write_enum e) = ((ed_prefix e ++ unspecified)%list, 0%Z, d) :: rest.
+Proof.
+  intro H. unfold write_enum, unspec_ok in *. cbn [eo_values].
+  destruct (ed_options e) as [|[n d] r]; [eauto|].
+  destruct (has_suffix unspecified n) eqn:Es; [|eauto].
+  apply orb_true_iff in H as [H|H].
+  - apply str_eqb_eq in H. subst n. unfold pfx. rewrite has_prefix_app. eauto.
+  - apply andb_true_iff in H as [H1 H2]. apply str_eqb_eq in H1. subst n.
+    apply negb_true_iff in H2. unfold pfx. rewrite H2. eauto.
+Qed.
+
+Theorem c04_enum e : unspec_ok e = true -> read_enum (write_enum e) = Ok (norm_enum e).
+Proof.
+  intro H. destruct (write_enum_first e H) as [d [rest Hv]].
+  unfold read_enum, norm_enum. rewrite Hv.
+  rewrite has_suffix_app. cbn [negb]. rewrite trim_suffix_app.
+  rewrite <- Hv. reflexivity.
+Qed.
